@@ -345,7 +345,25 @@ def zero_constants(case: dict) -> set[int]:
             elif k == "mv" and op["ins"][0] in z:
                 z.add(op["outs"][0][0])
             elif k == "for":
-                block(op["body"])
+                # a loop-carried value is the constant 0 when its init is and, assuming that of the
+                # block arguments, every iteration yields the constant 0 again (greatest fixpoint:
+                # drop candidates until the assumption is self-consistent)
+                bargs = [b[0] for b in op.get("bargs", [])]
+                ress = [r[0] for r in op.get("res", [])]
+                inits, yields = op.get("inits", []), op.get("yields", [])
+                cand = {b for b, i in zip(bargs, inits) if i in z}
+                outer = set(z)
+                while True:
+                    z.clear()
+                    z.update(outer | cand)
+                    block(op["body"])
+                    bad = {b for b, y in zip(bargs, yields) if b in cand and y not in z}
+                    if not bad:
+                        break
+                    cand -= bad
+                for b, r in zip(bargs, ress):
+                    if b in cand:
+                        z.add(r)
 
     block(case["ops"])
     return z
